@@ -46,6 +46,24 @@ OPTIONS = {
         'cli': (['-p', 'pw-cli'], b'pw-cli'), 'env': ({'REPLICAT_PASSWORD': 'pw-env'}, b'pw-env'),
         'profile': ('password = "pw-profile"', b'pw-profile'), 'default': ('password = "pw-default"', b'pw-default'), 'builtin': None,
         'get': lambda rec: rec['args'].password},
+    # one spelling per option inside the file: the default section is INHERITED by the profile, so `password` there plus
+    # `password-file` in the profile (or key / key-file) is the documented "cannot be used together" case, not a precedence case
+    'key_file': {
+        'cli': (['-K', '@TMP@/kf_cli'], b'key-cli'), 'profile': ('key-file = "@TMP@/kf_profile"', b'key-profile-file'),
+        'default': ('key-file = "@TMP@/kf_default"', b'key-default'), 'builtin': None,
+        'get': lambda rec: rec['args'].key},
+    'key_inline': {
+        'cli': (['-K', '@TMP@/kf_cli'], b'key-cli'), 'profile': ('key = "key-profile"', b'key-profile'),
+        'default': ('key = "key-default-inline"', b'key-default-inline'), 'builtin': None,
+        'get': lambda rec: rec['args'].key},
+    'password_file': {
+        'cli': (['-P', '@TMP@/pf_cli'], b'pw-file-cli'), 'env': ({'REPLICAT_PASSWORD': 'pw-env2'}, b'pw-env2'),
+        'profile': ('password-file = "@TMP@/pf_profile"', b'pw-file-profile'), 'default': ('password-file = "@TMP@/pf_default"', b'pw-file-default'), 'builtin': None,
+        'get': lambda rec: rec['args'].password},
+    'no_cache': {  # the option `no-cache` itself (how it combines with `cache-directory` is not a precedence question)
+        'cli': (['--no-cache'], None), 'profile': ('no-cache = true', None),
+        'default': ('no-cache = false', 'DEFAULT_CACHE'), 'builtin': 'DEFAULT_CACHE',
+        'get': lambda rec: rec['args'].cache_directory},
     'repository': {
         'cli': (['-r', 'custom:conn-cli'], 'conn-cli'), 'env': ({'REPLICAT_REPOSITORY': 'custom:conn-env'}, 'conn-env'),
         'profile': ('repository = "custom:conn-profile"', 'conn-profile'), 'default': ('repository = "custom:conn-default"', 'conn-default'),
@@ -76,6 +94,16 @@ OPTIONS = {
         'get': lambda rec: rec['backend'].region, 'backend': 's3c'},
 }
 COMMANDS = {'snapshot': ['snapshot', 'some/path'], 'restore': ['restore'], 'init': ['init']}
+
+
+def subst(how, tmp):
+    if isinstance(how, str):
+        return how.replace('@TMP@', str(tmp))
+    if isinstance(how, list):
+        return [subst(x, tmp) for x in how]
+    if isinstance(how, dict):
+        return {k: subst(v, tmp) for k, v in how.items()}
+    return how
 
 
 def run_main(argv, env, config_text, tmp):
@@ -131,6 +159,9 @@ def main():
         ns = tmp / 'ns' / 'replicat' / 'backends'
         ns.mkdir(parents=True)
         (ns / 'custom.py').write_text(CUSTOM)
+        for fname, content in (('kf_cli', b'key-cli'), ('kf_default', b'key-default'), ('kf_profile', b'key-profile-file'), ('pf_cli', b'pw-file-cli'),
+                               ('pf_profile', b'pw-file-profile'), ('pf_default', b'pw-file-default')):
+            (tmp / fname).write_bytes(content)
         sys.path.insert(0, str(tmp / 'ns'))
         import replicat
         if str(tmp / 'ns' / 'replicat') not in list(replicat.__path__):
@@ -156,6 +187,7 @@ def main():
                             argv_tail = []
                         for s in subset:
                             how, _ = spec[s]
+                            how = subst(how, tmp)
                             if s == 'cli':
                                 (argv_tail if opt in ('token', 'level', 'flag', 'region') else argv_front).extend(how)
                             elif s == 'env':
